@@ -8,8 +8,12 @@ From RV Require Import Lib.Res Repl.ClientTicks Repl.World Repl.Server Repl.Clie
 Open Scope N_scope.
 
 (* The client holds an alive pre-spawned entity [cid] (script id [pc], unique), nothing is mapped to
-   it yet; the message carries the mapping (e, pc) (the only one for e and for pc) and does not
-   despawn e.  Whatever else the message contains, and whether or not it is aborted half way:
+   it yet; the message carries the mapping (e, pc) (the only one for e and for pc).  (Until defect D30 was
+   repaired the statement needed the hypothesis "the message does not despawn e": the mappings were applied
+   BEFORE the despawn records of the same message, so a despawn record for e - e.g. from `SUnmark` +
+   `SMark` in one tick - despawned the pre-spawned entity just mapped and a second entity was created.  Now
+   the despawn records are applied first; C16_D30_regression below.)
+   Whatever else the message contains, and whether or not it is aborted half way:
    e is mapped to cid both ways, cid is an entity that existed before (so nothing was spawned for
    e), it is alive and carries the marker.  If the message runs to its end and has a record for e,
    that record is confirmed on cid at the message tick. *)
@@ -20,7 +24,6 @@ Theorem C16_mapping_adopts_prespawned : forall c u c' cid pc e x,
   (forall s, al_get s (cl_s2c c) <> Some cid) -> al_get cid (cl_c2s c) = None ->
   In (e, pc) (u_maps u) ->
   (forall e' pc', In (e', pc') (u_maps u) -> (pc' = pc <-> e' = e)) ->
-  ~ In e (u_despawns u) ->
   (apply_update_message c u = Ok c' ->
      cid < cl_next c /\ al_get e (cl_s2c c') = Some cid /\ al_get cid (cl_c2s c') = Some e /\
      exists x', get_cent c' cid = Some x' /\ ce_alive x' = true /\ ce_marker x' = true /\ ce_pre x' = Some pc) /\
@@ -28,9 +31,9 @@ Theorem C16_mapping_adopts_prespawned : forall c u c' cid pc e x,
      al_get e (cl_s2c c') = Some cid /\
      exists x', get_cent c' cid = Some x' /\ ce_pre x' = Some pc /\ confirmed_ent (u_tick u) x').
 Proof.
-  intros c u c' cid pc e x Hf Hnd Hx Ha Hp Huniq Hunm Hc2s Hin Hside Hdes. split.
-  - exact (mapping_adopts_prespawned c u c' cid pc e x Hf Hnd Hx Ha Hp Huniq Hunm Hc2s Hin Hside Hdes).
-  - intros comps. exact (mapping_adopts_prespawned_confirmed c u c' cid pc e x comps Hf Hnd Hx Ha Hp Huniq Hunm Hc2s Hin Hside Hdes).
+  intros c u c' cid pc e x Hf Hnd Hx Ha Hp Huniq Hunm Hc2s Hin Hside. split.
+  - exact (mapping_adopts_prespawned c u c' cid pc e x Hf Hnd Hx Ha Hp Huniq Hunm Hc2s Hin Hside).
+  - intros comps. exact (mapping_adopts_prespawned_confirmed c u c' cid pc e x comps Hf Hnd Hx Ha Hp Huniq Hunm Hc2s Hin Hside).
 Qed.
 
 (* the record's components are all written to the entity the record lands on *)
@@ -72,15 +75,14 @@ Example C16_hyps_satisfiable :
   get_cent ex_pre 0 = Some (mkCEnt true (Some 9) false None []) /\
   (forall cid' x', In (cid', x') (cl_ents ex_pre) -> ce_pre x' = Some 9 -> cid' = 0) /\
   (forall s, al_get s (cl_s2c ex_pre) <> Some 0) /\ al_get 0 (cl_c2s ex_pre) = None /\
-  In (5, 9) (u_maps ex_u) /\ (forall e' pc', In (e', pc') (u_maps ex_u) -> (pc' = 9 <-> e' = 5)) /\
-  ~ In 5 (u_despawns ex_u).
+  In (5, 9) (u_maps ex_u) /\ (forall e' pc', In (e', pc') (u_maps ex_u) -> (pc' = 9 <-> e' = 5)).
 Proof.
   split; [intros cid Hle; vm_compute in Hle |- *; destruct cid as [|p]; [exfalso; apply Hle; reflexivity|];
           destruct p; reflexivity|].
   split; [vm_compute; constructor; [intros []|constructor]|]. split; [reflexivity|].
   split; [intros cid' x' [H|[]] _; inversion H; reflexivity|].
   split; [intros s; vm_compute; discriminate|]. split; [reflexivity|]. split; [left; reflexivity|].
-  split; [intros e' pc' [H|[]]; inversion H; subst; split; reflexivity|intros []].
+  intros e' pc' [H|[]]; inversion H; subst; split; reflexivity.
 Qed.
 
 (* the mapped entity 5 lands on the pre-spawned client entity 0, although entity 7 (earlier in the
@@ -93,6 +95,18 @@ Example C16_adoption_concrete :
   | _ => ([], [], 0, [])
   end = ([(5, 0); (7, 1)], [(0, 5); (1, 7)], 2,
          [(0, Some 9, true, 1, [(0, CNat 3)]); (1, None, true, 1, [(3, CRef 0)])]).
+Proof. vm_compute. reflexivity. Qed.
+
+(* D30 regression: the message also carries a despawn record for the mapped entity 5 (what `SUnmark 5; SMark 5` in the
+   tick of the mapping produces).  The despawn record is applied first (entity 5 is unknown: no effect), then the
+   mapping: entity 5 lands on the pre-spawned client entity 0 and no second entity is created.  (Before the repair:
+   client entity 0 despawned, a fresh client entity 1 for server entity 5.) *)
+Example C16_D30_regression :
+  match apply_update_message ex_pre (mkUpd 1 [(5, 9)] [5] [] [(5, [(0, VNat 3)])]) with
+  | Ok c => (cl_s2c c, cl_c2s c, cl_next c,
+             map (fun kv => (fst kv, ce_alive (snd kv), ce_pre (snd kv), ce_marker (snd kv), ce_comps (snd kv))) (cl_ents c))
+  | _ => ([], [], 0, [])
+  end = ([(5, 0)], [(0, 5)], 1, [(0, true, Some 9, true, [(0, CNat 3)])]).
 Proof. vm_compute. reflexivity. Qed.
 
 (* the pre-spawned entity was despawned by the client before the mapping arrived: a fresh entity *)
